@@ -763,6 +763,7 @@ protected:
 
       std::string headerSection = dataStr.substr(0, headerEnd);
       std::size_t contentLength = 0;
+      bool hasContentLength = false;
       bool isChunked = false;
 
       // Parse headers
@@ -794,7 +795,19 @@ protected:
           {
             try
             {
-              contentLength = std::stoull(value);
+              // RFC 9112 §6.3: the value is 1*DIGIT (std::stoull alone would accept
+              // "3abc", "+3", "0x3") and repeated fields must not differ.
+              if (value.empty() || value.find_first_not_of("0123456789") != std::string::npos)
+              {
+                throw std::invalid_argument("Content-Length is not 1*DIGIT");
+              }
+              const std::size_t parsedLength = std::stoull(value);
+              if (hasContentLength && parsedLength != contentLength)
+              {
+                throw std::invalid_argument("conflicting Content-Length fields");
+              }
+              contentLength = parsedLength;
+              hasContentLength = true;
               if (contentLength > SessionInfo::MAX_BODY_SIZE)
               {
                 iora::core::Logger::error("HttpServer: Body size limit exceeded for session " +
@@ -809,8 +822,8 @@ protected:
               iora::core::Logger::error("HttpServer: Invalid "
                                         "content-length header for session " +
                                         std::to_string(sid) + " - closing connection");
-              // No lock held; guarded close (was unguarded raw _transport->close).
-              closeSession(sid);
+              // No lock held; sendErrorResponse closes the session after the 400.
+              sendErrorResponse(sid, 400, "Bad Request");
               return;
             }
           }
@@ -824,6 +837,16 @@ protected:
             }
           }
         }
+      }
+
+      // RFC 9112 §6.3: Content-Length together with Transfer-Encoding is a
+      // request-smuggling vector; reject it rather than pick one framing.
+      if (isChunked && hasContentLength)
+      {
+        iora::core::Logger::error("HttpServer: Both content-length and transfer-encoding for "
+                                  "session " + std::to_string(sid) + " - closing connection");
+        sendErrorResponse(sid, 400, "Bad Request");
+        return;
       }
 
       std::size_t requestEndPos;
